@@ -5,6 +5,11 @@ def find(ctx, oblig, diag):
         return None
     probes = [("1000", "600"), ("2400", "600"), ("36000", "3600"), ("-700", "600"), ("-3700", "3600"), ("-100", "600"), ("800", "600"), ("-599", "600")]
     res = None
+    # dates at the edge of what the `time` crate represents: arithmetic on them must not panic
+    for stamp, exp in [("99991231T235959Z", "1"), ("99991231T000000Z", "604800"), ("98700101T000000Z", "4294967295"), ("00010101T000000Z", "604800")]:
+        res = ctx["replay_tool"](["presigned-date", stamp, exp])
+        if res.get("violates"):
+            res["source"] = "presigned URL whose X-Amz-Date lies at the edge of the representable range"; return res
     for off, exp in probes:
         res = ctx["replay_tool"](["window", off, exp])
         if res.get("violates"):
